@@ -3,7 +3,6 @@ import MythVerif.Proofs.WsQueueTsoTac
 namespace MythVerif.WsqTso
 open MythVerif.Wsq
 
-set_option maxHeartbeats 4000000 in
 theorem o_cll (s s' : St) : Inv s → s.opc = .cll → stepO s = some s' → Inv s' := by
   intro h heq hs
   simp only [stepO, heq] at hs
@@ -12,45 +11,34 @@ theorem o_cll (s s' : St) : Inv s → s.opc = .cll → stepO s = some s' → Inv
     simp at hb
     split at hs
     · simp at hs; subst hs
-      cases h
-      simp only [heq, ownerLocked, carry, resetting, ownerFlight] at *
-      tso_finish
+      tso_fastO h heq [carryC]
     · simp at hs; subst hs; exact h
   · simp at hs
 
-set_option maxHeartbeats 4000000 in
 theorem o_cl1 (s s' : St) : Inv s → s.opc = .cl1 → stepO s = some s' → Inv s' := by
   intro h heq hs
   have hb := (h.cl1 heq).1
-  cases h
   simp only [stepO, heq, hb, viewBase_nil, viewTop_nil] at hs
   split at hs
   all_goals (simp at hs; subst hs)
-  all_goals simp only [heq, ownerLocked, carry, resetting, ownerFlight] at *
-  all_goals tso_finish
+  all_goals tso_fastO h heq [cl1]
 
-set_option maxHeartbeats 4000000 in
 theorem o_cl2 (s s' : St) : Inv s → s.opc = .cl2 → stepO s = some s' → Inv s' := by
   intro h heq hs
   have hv := cl2_viewBase _ _ _ (h.cl2 heq).2.2.2
-  cases h
   simp only [stepO, heq, hv] at hs
   simp at hs; subst hs
-  simp only [heq, ownerLocked, carry, resetting, ownerFlight] at *
-  tso_finish
+  tso_fastO h heq [cl2]
 
-set_option maxHeartbeats 4000000 in
 theorem o_cl3 (s s' : St) : Inv s → s.opc = .cl3 → stepO s = some s' → Inv s' := by
   intro h heq hs
   have hcfg := h.cfg
-  cases h
   simp only [stepO, heq, releaseO, hcfg, code_unlockFence, if_true] at hs
   split at hs
   · rename_i hb
     simp at hb
     simp at hs; subst hs
-    simp only [heq, ownerLocked, carry, resetting, ownerFlight] at *
-    tso_finish
+    tso_fastO h heq [cl3]
   · simp at hs
 
 end MythVerif.WsqTso
